@@ -26,7 +26,7 @@ Step(s, op) ==
     [] op.m = "removekeys" -> Do(s, [m |-> "removekeys", ks |-> SetOf(op.ks)])
     [] op.m = "acquire"    -> Do(s, [m |-> "acquire", k |-> op.k, ttl |-> 2])
     [] op.m = "release"    -> Do(s, [m |-> "release", k |-> op.k, tok |-> "cur"])
-    [] op.m = "reopen"     -> [st |-> s, ret |-> [e |-> "ok"]]
+    [] op.m \in {"reopen", "importfill", "removefill"} -> [st |-> s, ret |-> [e |-> "ok"]]
     [] OTHER               -> Do(s, op)
 
 Proj(s) == [simple |-> s.simple, kids |-> s.kids, lease |-> [i \in KI |-> s.lease[i] # 0],
@@ -40,11 +40,20 @@ Consistent(p) ==
                        \cup {<<Keys[j], "LEASE">> : x \in {1} \cap (IF p.lease[j] THEN {1} ELSE {})} : j \in KI}
   /\ p.ranged = {Keys[j] : j \in {j \in KI : p.simple[j] # None \/ p.kids[j] # {} \/ p.lease[j]}}
 
-RECURSIVE Run(_, _, _, _)
-Run(ops, i, s, acc) == IF i > Len(ops) THEN acc
-                       ELSE LET r == Step(s, ops[i]) IN Run(ops, i + 1, r.st, Append(acc, [ret |-> r.ret.e, proj |-> Proj(r.st)]))
+(* bulk operations: one Import of n filler keys (keys of their own, outside Keys) and one RemoveKeys of n filler keys; each is one
+   operation of the history, so a recovered store holds all of a bulk import's keys or none, and none or all of a removed range.
+   The filler keys are projected to their number. *)
+FillAfter(f, op) == CASE op.m = "importfill" -> IF op.n > f THEN op.n ELSE f
+                      [] op.m = "removefill" -> IF op.n >= f THEN 0 ELSE f - op.n
+                      [] OTHER -> f
 
-Prefixes(h) == Run(h.ops, 1, Empty, <<[ret |-> "", proj |-> Proj(Empty)]>>)     \* index j+1 = after j operations
+RECURSIVE Run(_, _, _, _, _)
+Run(ops, i, s, f, acc) == IF i > Len(ops) THEN acc
+                          ELSE LET r == Step(s, ops[i])
+                                   nf == FillAfter(f, ops[i])
+                               IN Run(ops, i + 1, r.st, nf, Append(acc, [ret |-> r.ret.e, proj |-> [fill |-> nf] @@ Proj(r.st)]))
+
+Prefixes(h) == Run(h.ops, 1, Empty, 0, <<[ret |-> "", proj |-> [fill |-> 0] @@ Proj(Empty)]>>)     \* index j+1 = after j operations
 Legal(p, h, acked) == \E j \in acked..Len(h.ops) : p = Prefixes(h)[j + 1].proj
 
 VARIABLES c, done
